@@ -60,6 +60,10 @@ pub enum TSpec {
     /// a collection whose child is a plain `Vec<&Leaf>` / `Box<[&Leaf]>` of the library's own
     /// impls (its guard is the library's guard for slices, not a harness container); top level only
     Slice { kind: CollKind, boxed: bool, members: Vec<Lid>, poison: bool },
+    /// a sorting collection over the members of by-reference unit `unit`, reached through
+    /// whatever shared access the owned collection gives to its child. It must give none (an
+    /// owned collection locks in listing order): the target then does not exist.
+    Exposed { unit: usize },
 }
 
 #[derive(Clone, Copy, PartialEq, Eq, Debug, Serialize, Deserialize, Hash, PartialOrd, Ord)]
@@ -195,6 +199,9 @@ pub enum BodyOp {
     /// scoped calls only: the closure hands the data it was given back to its caller, which
     /// uses it (write if exclusive, read if shared) after the call has returned
     EscapeData(usize),
+    /// inside a hold: take a key that another thread has sent (if keys can be sent at all) and
+    /// lock the i-th leaf of the target, which this thread already holds, with it
+    UseForeignKey(usize),
 }
 
 #[derive(Clone, PartialEq, Eq, Debug, Serialize, Deserialize)]
@@ -219,6 +226,9 @@ pub enum KeyOp {
     Get,
     Drop,
     Forget,
+    /// hand the thread's key to whichever thread wants it (possible only if `ThreadKey: Send`,
+    /// which it must not be)
+    Send,
 }
 
 #[derive(Clone, PartialEq, Eq, Debug, Serialize, Deserialize)]
@@ -406,6 +416,18 @@ impl WorldSpec {
                     poison.pop();
                 }
             }
+            TSpec::Exposed { unit } => {
+                for (i, l) in self.units[*unit].leaves.iter().enumerate() {
+                    let k = self.leaves[*l];
+                    let mut p = poison.clone();
+                    for d in 0..k.layers() {
+                        p.push(PoisonId::Leaf(*l, d));
+                    }
+                    let mut pp = path.clone();
+                    pp.push(i as u8);
+                    out.push(FlatLeaf { lid: *l, kind: k, path: pp, poison: p, unit: None });
+                }
+            }
             TSpec::Slice { members, poison: pz, .. } => {
                 if *pz {
                     poison.push(match root {
@@ -505,6 +527,11 @@ impl WorldSpec {
                     (0..self.leaves[*l].layers()).for_each(|d| out.push(PoisonId::Leaf(*l, d)));
                 }
             }
+            TSpec::Exposed { unit } => {
+                for l in &self.units[*unit].leaves {
+                    (0..self.leaves[*l].layers()).for_each(|d| out.push(PoisonId::Leaf(*l, d)));
+                }
+            }
             TSpec::Slice { members, poison, .. } => {
                 if *poison {
                     out.push(match root {
@@ -552,6 +579,7 @@ impl WorldSpec {
             TSpec::Own { leaves, .. } => leaves.iter().for_each(|l| out.push(Elem::Leaf(*l))),
             TSpec::OnData { data, .. } => self.datas[*data].leaves.iter().for_each(|l| out.push(Elem::Leaf(*l))),
             TSpec::MutRefs { members, .. } | TSpec::Slice { members, .. } => members.iter().for_each(|l| out.push(Elem::Leaf(*l))),
+            TSpec::Exposed { unit } => self.units[*unit].leaves.iter().for_each(|l| out.push(Elem::Leaf(*l))),
         }
     }
 
@@ -592,6 +620,7 @@ impl WorldSpec {
             TSpec::Own { kind: OwnKind::Ref, .. } => Some(CollKind::Ref),
             TSpec::Own { kind: OwnKind::Retry, .. } => Some(CollKind::Retry),
             TSpec::OnData { kind, .. } | TSpec::Slice { kind, .. } => Some(*kind),
+            TSpec::Exposed { .. } => Some(CollKind::Boxed),
             TSpec::MutRefs { kind: OwnKind::Boxed, .. } => Some(CollKind::Boxed),
             TSpec::MutRefs { kind: OwnKind::Ref, .. } => Some(CollKind::Ref),
             TSpec::MutRefs { kind: OwnKind::Retry, .. } => Some(CollKind::Retry),
@@ -605,7 +634,7 @@ impl WorldSpec {
             TSpec::Shared(i) => self.depth(&self.targets[*i]),
             TSpec::Tagged(_, inner) => self.depth(inner),
             TSpec::Group { members, .. } => members.iter().map(|m| self.depth(m)).max().unwrap_or(0),
-            TSpec::Own { .. } | TSpec::OnData { .. } | TSpec::MutRefs { .. } | TSpec::Slice { .. } => 1,
+            TSpec::Own { .. } | TSpec::OnData { .. } | TSpec::MutRefs { .. } | TSpec::Slice { .. } | TSpec::Exposed { .. } => 1,
             _ => 0,
         }
     }
